@@ -21,34 +21,45 @@ Record sfile := mk_sfile {
   sf_cap : option nat;    (* bytes the kernel will still accept; None = no limit *)
   sf_put : bool;          (* _IO_CURRENTLY_PUTTING: the buffer has been set up by a first write *)
   sf_line : bool;         (* _IO_LINE_BUF (qpdf: QUtil::setLineBuf(stdout)) *)
-  sf_open : bool }.
+  sf_open : bool;
+  sf_glitch : option nat  (* a transient fault: Some k = the (k+1)-th write(2) from now on fails ONCE (EINTR, EIO, a
+                             momentary ENOSPC) and accepts nothing; the writes after it succeed *)
+}.
 
-Definition sio_new (cap : option nat) (line : bool) : sfile := mk_sfile [] [] false cap false line true.
+Definition sio_new (cap : option nat) (line : bool) : sfile := mk_sfile [] [] false cap false line true None.
+Definition sio_new_glitch (cap : option nat) (line : bool) (g : option nat) : sfile := mk_sfile [] [] false cap false line true g.
 (* a file that is simply there (the input of --replace-input): content, no stream *)
-Definition sio_static (content : list N) : sfile := mk_sfile (rev' content) [] false None false false false.
+Definition sio_static (content : list N) : sfile := mk_sfile (rev' content) [] false None false false false None.
 
 Definition sio_disk (f : sfile) : list N := rev' (sf_rdisk f).
 (* what the stream has been given and not lost: kernel part followed by the buffer *)
 Definition sio_logical (f : sfile) : list N := rev' (sf_rbuf f ++ sf_rdisk f).
 
 Definition sio_set_cap (f : sfile) (c : option nat) : sfile :=
-  mk_sfile (sf_rdisk f) (sf_rbuf f) (sf_err f) c (sf_put f) (sf_line f) (sf_open f).
+  mk_sfile (sf_rdisk f) (sf_rbuf f) (sf_err f) c (sf_put f) (sf_line f) (sf_open f) (sf_glitch f).
 Definition sio_set_put (f : sfile) : sfile :=
-  mk_sfile (sf_rdisk f) (sf_rbuf f) (sf_err f) (sf_cap f) true (sf_line f) (sf_open f).
+  mk_sfile (sf_rdisk f) (sf_rbuf f) (sf_err f) (sf_cap f) true (sf_line f) (sf_open f) (sf_glitch f).
 Definition sio_set_closed (f : sfile) : sfile :=
-  mk_sfile (sf_rdisk f) (sf_rbuf f) (sf_err f) (sf_cap f) (sf_put f) (sf_line f) false.
+  mk_sfile (sf_rdisk f) (sf_rbuf f) (sf_err f) (sf_cap f) (sf_put f) (sf_line f) false (sf_glitch f).
 Definition sio_copy (f : sfile) (d : list N) : sfile :=
-  mk_sfile (sf_rdisk f) (rev_append d (sf_rbuf f)) (sf_err f) (sf_cap f) (sf_put f) (sf_line f) (sf_open f).
+  mk_sfile (sf_rdisk f) (rev_append d (sf_rbuf f)) (sf_err f) (sf_cap f) (sf_put f) (sf_line f) (sf_open f) (sf_glitch f).
 
 (* write(2) as _IO_new_file_write drives it: it loops on short counts, so what comes back is
    "everything" or "what fitted, and the error flag". *)
-Definition sio_kwrite (f : sfile) (d : list N) : nat * sfile :=
+Definition sio_kwrite_cap (f : sfile) (g : option nat) (d : list N) : nat * sfile :=
   match sf_cap f with
-  | None => (length d, mk_sfile (rev_append d (sf_rdisk f)) (sf_rbuf f) (sf_err f) None (sf_put f) (sf_line f) (sf_open f))
+  | None => (length d, mk_sfile (rev_append d (sf_rdisk f)) (sf_rbuf f) (sf_err f) None (sf_put f) (sf_line f) (sf_open f) g)
   | Some c =>
     let a := Nat.min c (length d) in
     (a, mk_sfile (rev_append (firstn a d) (sf_rdisk f)) (sf_rbuf f)
-          (sf_err f || (a <? length d)) (Some (c - a)) (sf_put f) (sf_line f) (sf_open f))
+          (sf_err f || (a <? length d)) (Some (c - a)) (sf_put f) (sf_line f) (sf_open f) g)
+  end.
+Definition sio_kwrite (f : sfile) (d : list N) : nat * sfile :=
+  match sf_glitch f with
+  | Some O =>       (* this one write fails: nothing accepted, _IO_ERR_SEEN set; the fault is over *)
+    (0, mk_sfile (sf_rdisk f) (sf_rbuf f) true (sf_cap f) (sf_put f) (sf_line f) (sf_open f) None)
+  | Some (S k) => sio_kwrite_cap f (Some k) d
+  | None => sio_kwrite_cap f None d
   end.
 
 (* _IO_do_flush / new_do_write on the buffer: nothing to write = no system call; otherwise the
@@ -60,7 +71,7 @@ Definition sio_flushbuf (f : sfile) : bool * sfile :=
     let d := rev' (sf_rbuf f) in
     let '(a, f1) := sio_kwrite f d in
     (Nat.eqb a (length d),
-     mk_sfile (sf_rdisk f1) [] (sf_err f1) (sf_cap f1) (sf_put f1) (sf_line f1) (sf_open f1))
+     mk_sfile (sf_rdisk f1) [] (sf_err f1) (sf_cap f1) (sf_put f1) (sf_line f1) (sf_open f1) (sf_glitch f1))
   end.
 
 (* _IO_default_xsputn / __overflow(f, ch) one character at a time; `room` = free bytes in the
